@@ -236,6 +236,14 @@ def setup(sync_hints: bool = False):
     _configured = not sync_hints
 
 
+def reset_evaluators():
+    """fresh harness evaluator / provider / resolver INSTANCES (state an implementation keeps on those long-lived objects must
+    not leak from one explored execution into the next: every execution starts from the same initial state)"""
+    global _configured
+    _configured = False
+    setup()
+
+
 _loop: Optional[asyncio.AbstractEventLoop] = None
 
 
